@@ -57,6 +57,7 @@ KEYED = {
     "kv": [("state::NodeState", "key_values", "std::string::String")],
     "digest": [("digest::Digest", "node_digests", "types::ChitchatId")],
     "listeners": [("listener::InnerListeners", "listeners", "std::string::String")],
+    "builder": [("delta::DeltaBuilder", "existing_nodes", "types::ChitchatId")],
 }
 
 
